@@ -632,12 +632,25 @@ func (exec *Executor) executeDecimalMethod(
 		)
 	}
 
-	// Count the digits before the decimal point.
+	// Count the digits before the decimal point or, for a fraction, the
+	// zeros between the decimal point and the first digit as a negative count.
 	numStr := strconv.FormatFloat(rounded, 'f', -1, 64)
 	count := 0
+	fraction := false
 	for _, ch := range numStr {
 		if ch == '.' {
-			break
+			if count > 0 {
+				break
+			}
+			fraction = true
+			continue
+		}
+		if fraction {
+			if ch != '0' {
+				break
+			}
+			count--
+			continue
 		}
 		// Every digit from the first non-zero one counts.
 		if '1' <= ch && ch <= '9' || ch == '0' && count > 0 {
@@ -645,8 +658,9 @@ func (exec *Executor) executeDecimalMethod(
 		}
 	}
 
-	// Make sure it's got no more than precision digits.
-	if count > 0 && count > precision-scale {
+	// Make sure it's got no more than precision digits. When the scale
+	// exceeds the precision that requires zeros after the decimal point.
+	if rounded != 0 && count > precision-scale {
 		return 0, fmt.Errorf(
 			`%w: argument "%v" of jsonpath item method %v is invalid for type %v`,
 			ErrVerbose, value, op, "numeric",
